@@ -44,6 +44,10 @@ pub trait BackYes<T> {
     fn rev_all_(self) -> Option<Vec<T>>
     where
         Self: Sized;
+    /// `rev().for_each(f)`; false = not double-ended (f never called)
+    fn rev_for_each_(self, f: &mut dyn FnMut(T)) -> bool
+    where
+        Self: Sized;
 }
 impl<T, I: DoubleEndedIterator<Item = T>> BackYes<T> for Caps<I> {
     fn rfind_(&mut self, pred: &mut dyn FnMut(&T) -> bool) -> Option<Option<T>> {
@@ -53,6 +57,10 @@ impl<T, I: DoubleEndedIterator<Item = T>> BackYes<T> for Caps<I> {
         let mut v = vec![];
         self.0.rev().for_each(|t| v.push(t));
         Some(v)
+    }
+    fn rev_for_each_(self, f: &mut dyn FnMut(T)) -> bool {
+        self.0.rev().for_each(|t| f(t));
+        true
     }
     fn back(&mut self) -> Option<Option<T>> {
         Some(self.0.next_back())
@@ -76,6 +84,12 @@ pub trait BackNo<T> {
         Self: Sized,
     {
         None
+    }
+    fn rev_for_each_(self, _f: &mut dyn FnMut(T)) -> bool
+    where
+        Self: Sized,
+    {
+        false
     }
 }
 impl<T, I: Iterator<Item = T>> BackNo<T> for &mut Caps<I> {}
@@ -128,6 +142,7 @@ pub trait DynIter<T> {
     fn rfind_(&mut self, pred: &mut dyn FnMut(&T) -> bool) -> Option<Option<T>>;
     /// everything `rev().for_each(..)` visits (built on `rfold`); `None` = not double-ended
     fn rev_all_(self: Box<Self>) -> Option<Vec<T>>;
+    fn rev_for_each_(self: Box<Self>, f: &mut dyn FnMut(T)) -> bool;
     /// `None` = the type does not declare ExactSizeIterator
     fn xlen(&self) -> Option<usize>;
     fn hint(&self) -> (usize, Option<usize>);
@@ -149,6 +164,8 @@ macro_rules! dyn_iter_impl {
             fn rfind_(&mut self, pred: &mut dyn FnMut(&$item) -> bool) -> Option<Option<$item>> { (&mut self.0).rfind_(pred) }
             #[allow(unused_mut)]
             fn rev_all_(self: Box<Self>) -> Option<Vec<$item>> { let mut c = self.0; c.rev_all_() }
+            #[allow(unused_mut)]
+            fn rev_for_each_(self: Box<Self>, f: &mut dyn FnMut($item)) -> bool { let mut c = self.0; c.rev_for_each_(f) }
             fn xlen(&self) -> Option<usize> { (&self.0).xlen() }
             fn hint(&self) -> (usize, Option<usize>) { self.0 .0.size_hint() }
             fn fused(&self) -> bool { (&self.0).fused() }
